@@ -286,6 +286,7 @@ def geometry_recipes(rng, k):
     yield 'FanBeamGeometry/frommatrix' + tag, lambda: TOMO.FanBeamGeometry.frommatrix(apart, dpart1, 2, 3, np.hstack([M, rng.normal(size=(2, 1))]) if k % 2 else M)
     yield 'Parallel3dAxisGeometry' + tag, lambda: TOMO.Parallel3dAxisGeometry(apart, dpart2, axis=ax.copy(), **kw3)
     yield 'Parallel3dAxisGeometry/all-vectors' + tag, lambda: TOMO.Parallel3dAxisGeometry(apart, dpart2, axis=ax.copy(), det_pos_init=2 * a, det_axes_init=(b, ax / np.linalg.norm(ax)), **kw3)
+    yield 'Parallel3dAxisGeometry/sheared-detector' + tag, lambda: TOMO.Parallel3dAxisGeometry(apart, dpart2, axis=ax.copy(), det_pos_init=2 * a, det_axes_init=(b, sheared(rng, b, ax)), **kw3)
     yield 'Parallel3dAxisGeometry/frommatrix' + tag, lambda: TOMO.Parallel3dAxisGeometry.frommatrix(apart, dpart2, np.hstack([M3, rng.normal(size=(3, 1))]) if k % 2 else M3)
     yield 'Parallel3dEulerGeometry/2-angles' + tag, lambda: TOMO.Parallel3dEulerGeometry(ap2, dpart2, det_pos_init=rvec(rng, 3), **kw3)
     yield 'Parallel3dEulerGeometry/3-angles' + tag, lambda: TOMO.Parallel3dEulerGeometry(ap3, dpart2, det_pos_init=rvec(rng, 3), **kw3)
@@ -362,7 +363,10 @@ def run_relational(ctx):
                         if not np.allclose(axes @ v1, 0, atol=1e-12):
                             ctx.violation(comp, 'scalar', 'ray-not-orthogonal-to-detector-axes')
                     axes = np.atleast_2d(g.det_axis(m)) if nd == 2 else np.asarray(g.det_axes(m))
-                    if not np.allclose(axes @ axes.T, np.eye(len(axes)), atol=1e-12):
+                    if 'sheared' in name:
+                        if not np.allclose(np.diag(axes @ axes.T), 1, atol=1e-12):
+                            ctx.violation(comp, 'scalar', 'det-axes-not-unit')
+                    elif not np.allclose(axes @ axes.T, np.eye(len(axes)), atol=1e-12):
                         ctx.violation(comp, 'scalar', 'det-axes-not-orthonormal')
                 # vectorised == pointwise
                 ms = [rand_m(g, rng) for _ in range(3)]
@@ -530,6 +534,14 @@ def run_detector_alignment(ctx):
                 ctx.violation(nm, 'alignment', 'raises:' + type(e).__name__, message=str(e)[:200])
 
 
+def sheared(rng, a, b):
+    """Unit vector at 30..80 degrees to the unit vector ``a`` in the plane of (a, b): flat 2d detectors only require
+    linearly independent axes."""
+    t = np.deg2rad(rng.uniform(30, 80)) * rng.choice([-1, 1])
+    a = np.asarray(a, dtype=float) / np.linalg.norm(a)
+    return np.cos(t) * a + np.sin(t) * np.asarray(b, dtype=float) / np.linalg.norm(b)
+
+
 def run_detectors(ctx):
     rng = ctx.rng('detectors')
     for it in range(ctx.reps(10, 60)):
@@ -541,6 +553,7 @@ def run_detectors(ctx):
         b3 /= np.linalg.norm(b3)
         specs = [('Flat1dDetector', lambda: D.Flat1dDetector(odl.uniform_partition(-1, 1, 5), a2)),
                  ('Flat2dDetector', lambda: D.Flat2dDetector(odl.uniform_partition([-1, -1], [1, 1], (4, 5)), [ax3, b3])),
+                 ('Flat2dDetector', lambda: D.Flat2dDetector(odl.uniform_partition([-1, -1], [1, 1], (4, 5)), [ax3, sheared(rng, ax3, b3)])),
                  ('CircularDetector', lambda: D.CircularDetector(odl.uniform_partition(-1, 1, 5), a2, rng.uniform(1.5, 4))),
                  ('CylindricalDetector', lambda: D.CylindricalDetector(odl.uniform_partition([-1, -1], [1, 1], (4, 5)), [ax3, b3], rng.uniform(1.5, 4))),
                  ('SphericalDetector', lambda: D.SphericalDetector(odl.uniform_partition([-1, -1], [1, 1], (4, 5)), [ax3, b3], rng.uniform(1.5, 4)))]
